@@ -29,7 +29,7 @@ void gh_complete_add(size_t x){ g_stored += x; }
 void gh_manager_complete(size_t x){ g_ndone += x; if (g_running >= x) g_running -= x; else g_running = 0; }
 void gh_checkpoint(void){ }
 //@ loop sequential_loop 0
-__CPROVER_assigns(x, total_num_launched, g_stored, g_loaded, g_ncand, g_ndone, g_free, g_computed)
+__CPROVER_assigns(x, total_num_launched, g_stored, g_loaded, g_ncand, g_ndone, g_free, g_computed, g_running)
 __CPROVER_loop_invariant(total_num_launched == g_done_before + g_computed && total_num_launched <= max_num_points)
 __CPROVER_loop_invariant(g_stored + g_loaded == g_done_before + g_computed && g_free <= g_ncand)
 //@ harness h_budget
